@@ -21,6 +21,7 @@ import (
 	"path/filepath"
 	"strings"
 	"sync"
+	"sync/atomic"
 	"testing"
 	"testing/synctest"
 	"time"
@@ -50,6 +51,7 @@ type Outcome struct {
 	O string `json:"o"`           // accept fail acklost cancel
 	K uint64 `json:"k,omitempty"` // accept / acklost: how many blobs of the call the DA layer takes
 	F string `json:"f,omitempty"` // fail / acklost: notincluded inmempool toobig err deadline seq;  cancel: "" = context.Canceled, "sentinel" = coreda.ErrContextCanceled
+	P []bool `json:"p,omitempty"` // tick items only: blocks (with transactions?) the aggregator commits WHILE this DA call is in flight (after the call is made, before its answer is processed)
 }
 type Item struct {
 	T  string    `json:"t"`            // publish tick loop restart
@@ -116,6 +118,21 @@ func genScript(r *rand.Rand) []Outcome {
 		sc = append(sc, Outcome{O: "accept", K: 1000})
 	case x < 30:
 		sc = []Outcome{{O: "accept", K: 1000}}
+	case x < 38: // the DA node / proxy aborts a request ("cancelled" answer) while the node itself keeps running; then ordinary answers, then acceptance
+		for i, n := 0, r.Intn(3); i < n; i++ {
+			sc = append(sc, Outcome{O: "fail", F: fkinds[r.Intn(len(fkinds))]})
+		}
+		for i, n := 0, 1+r.Intn(2); i < n; i++ {
+			if r.Intn(2) == 0 {
+				sc = append(sc, Outcome{O: "cancel", F: "sentinel"})
+			} else {
+				sc = append(sc, Outcome{O: "cancel"})
+			}
+		}
+		for i, n := 0, r.Intn(3); i < n; i++ {
+			sc = append(sc, genOutcome(r))
+		}
+		sc = append(sc, Outcome{O: "accept", K: 1000})
 	default:
 		n := 1 + r.Intn(7)
 		for i := 0; i < n; i++ {
@@ -146,6 +163,23 @@ func genHistory(r *rand.Rand, maxLen int) (uint64, []Item) {
 		}
 		return it
 	}
+	// a busy chain: in 35% of the iterations the aggregator commits blocks while DA calls of the iteration are in
+	// flight (1..2 blocks during about half of the calls, 70% of them with transactions)
+	inflight := func(sc []Outcome) []Outcome {
+		if r.Intn(100) >= 35 {
+			return sc
+		}
+		for i := range sc {
+			if r.Intn(2) == 0 || blocks >= 30 {
+				continue
+			}
+			for j, k := 0, 1+r.Intn(2); j < k && blocks < 30; j++ {
+				sc[i].P = append(sc[i].P, r.Intn(100) < 70)
+				blocks++
+			}
+		}
+		return sc
+	}
 	if r.Intn(100) < 15 { // equal lists in consecutive blocks, pending together in one batch, optionally across a restart
 		h = append(h, Item{T: "publish"}, Item{T: "publish", NE: true, TX: 1}, Item{T: "publish", NE: true, TX: 1})
 		blocks += 3
@@ -168,9 +202,9 @@ func genHistory(r *rand.Rand, maxLen int) (uint64, []Item) {
 				blocks++
 			}
 		case x < 56:
-			h = append(h, Item{T: "tick", K: "h", SC: genScript(r)})
+			h = append(h, Item{T: "tick", K: "h", SC: inflight(genScript(r))})
 		case x < 78:
-			h = append(h, Item{T: "tick", K: "d", SC: genScript(r)})
+			h = append(h, Item{T: "tick", K: "d", SC: inflight(genScript(r))})
 		case x < 88:
 			h = append(h, Item{T: "loop", SC: genScript(r), SD: genScript(r)})
 		default:
@@ -339,6 +373,7 @@ type daCall struct {
 	out      Outcome
 	accepted int
 	epoch    int // number of restarts before the call
+	pubs     []bool // observed kinds of the blocks committed while the call was in flight
 }
 
 type daDouble struct {
@@ -352,6 +387,14 @@ type daDouble struct {
 	daHeight uint64
 	unlogged int
 	acked    map[string]uint64 // highest height whose acceptance was acknowledged to the caller
+	inflight func(pubs []bool) []bool // tick items: commits the blocks of an answer while the call is in flight; returns the observed kinds
+}
+
+// DA answers of the script of a kind not asked for yet
+func (d *daDouble) left(key string) int {
+	d.mu.Lock()
+	defer d.mu.Unlock()
+	return len(d.script[key])
 }
 
 func fErr(f string) error {
@@ -439,7 +482,17 @@ func (d *daDouble) SubmitWithOptions(ctx context.Context, blobs []coreda.Blob, g
 		d.acked[kind] = hs[take-1]
 	}
 	d.calls = append(d.calls, c)
+	ci := len(d.calls) - 1
+	hook := d.inflight
 	d.mu.Unlock()
+	if len(o.P) > 0 && hook != nil {
+		// the call is in flight: the aggregator commits blocks (publishBlockInternal on the same Manager); the caller
+		// built its batch before and processes the answer after
+		obs := hook(o.P)
+		d.mu.Lock()
+		d.calls[ci].pubs = obs
+		d.mu.Unlock()
+	}
 	switch o.O {
 	case "accept":
 		return ids, nil
@@ -561,6 +614,34 @@ func (w *world) watermark(kind string) (uint64, *uint64) {
 	return w.m.VerifLastSubmittedHeaderHeight(), w.persisted("h")
 }
 
+// one block committed by the real publishBlockInternal; returns whether the committed block has transactions
+func (w *world) publish(ne bool, tx int) (bool, error) {
+	r := w.r
+	before := w.height()
+	if ne {
+		n := 1 + r.Intn(3)
+		var txs [][]byte
+		for i := 0; i < n; i++ {
+			tx := make([]byte, 1+r.Intn(24))
+			r.Read(tx)
+			txs = append(txs, tx)
+		}
+		if tx > 0 { // a fixed list: blocks with the same TX have identical transaction lists
+			txs = [][]byte{[]byte(fmt.Sprintf("pool-%d-a", tx)), []byte(fmt.Sprintf("pool-%d-b", tx))}
+		}
+		w.seq.next = txs
+	} else {
+		w.seq.next = nil
+	}
+	if err := w.m.VerifPublishBlock(w.ctx); err != nil {
+		return false, fmt.Errorf("publish failed: %w", err)
+	}
+	if w.height() != before+1 {
+		return false, fmt.Errorf("publish did not commit a block (height %d -> %d)", before, w.height())
+	}
+	return w.nonEmpty(before + 1), nil
+}
+
 func (w *world) height() uint64 {
 	h, _ := w.st.Height(w.ctx)
 	return h
@@ -569,6 +650,8 @@ func (w *world) height() uint64 {
 // ---- running one history -------------------------------------------------------------------------
 
 type itemOut struct {
+	citem   bool // coqItem is already a term of type citem (iteration with in-flight commits)
+	left    int  // loop items: DA answers the loop did not ask for; -1 = not compared
 	hitem   bool // coqItem is already a term of type hitem (run-length item); otherwise an item, wrapped in HI
 	coqItem string
 	res     int // 0 idle 1 nothing 2 geterr 3 nil 4 err; -1 = not compared
@@ -589,6 +672,16 @@ type caseResult struct {
 	nExhausted int
 	nPartial   int
 	nAckLost   int
+	nInflight  int
+}
+
+func hasInflight(sc []Outcome) bool {
+	for _, o := range sc {
+		if len(o.P) > 0 {
+			return true
+		}
+	}
+	return false
 }
 
 func optN(p *uint64) string {
@@ -845,6 +938,53 @@ func (o *oracle) checkCalls() {
 	}
 }
 
+func stripInflight(sc []Outcome) []Outcome {
+	out := append([]Outcome{}, sc...)
+	for i := range out {
+		out[i].P = nil
+	}
+	return out
+}
+
+// committed headers / non-empty data of a kind not (faithfully) on the DA layer: "" when there is none
+func (o *oracle) missingOf(kind string) string {
+	w := o.w
+	top := w.height()
+	if top < w.gen.InitialHeight {
+		return ""
+	}
+	set := o.acceptedSet(kind)
+	for h := w.gen.InitialHeight; h <= top; h++ {
+		if kind == "h" && !set[h] {
+			return fmt.Sprintf("header %d", h)
+		}
+		if kind == "d" && w.nonEmpty(h) && !set[h] {
+			return fmt.Sprintf("data %d", h)
+		}
+	}
+	return ""
+}
+
+// "Submission is retried through DA failures until accepted", judged on the UNMODIFIED loop goroutine: it ran, with its
+// context alive, for longer than every scripted DA answer can take (backoffs, the 60 s submit deadline, one tick per
+// iteration).  If the DA double still has answers of that kind to give (left > 0: the script's end is what cancels the
+// loop's context) while a committed header / non-empty data is not on the DA layer, the loop has stopped retrying.
+func (o *oracle) loopRetries(kind string, left int, returned bool, ran time.Duration) {
+	if left == 0 {
+		return
+	}
+	missing := o.missingOf(kind)
+	if missing == "" {
+		return
+	}
+	name := map[string]string{"h": "HeaderSubmissionLoop", "d": "DataSubmissionLoop"}[kind]
+	state := "is still running but made no further DA call"
+	if returned {
+		state = "RETURNED although its context was not cancelled"
+	}
+	o.fail("loop-stopped-retrying-while-da-answers", fmt.Sprintf("%s ran %v of virtual time with its context alive; %s is not on the DA layer and the DA layer had %d more answers to give, but the loop %s", name, ran, missing, left, state))
+}
+
 func closing(h []Item) bool {
 	n := len(h)
 	if n < 2 {
@@ -976,36 +1116,16 @@ func runCase(seed int64, c int, init uint64, hist []Item, rootDir string) (res *
 			}
 			var kinds []bool
 			for j := 0; j < n; j++ {
-				before := w.height()
-				if it.NE {
-					n := 1 + r.Intn(3)
-					var txs [][]byte
-					for i := 0; i < n; i++ {
-						tx := make([]byte, 1+r.Intn(24))
-						r.Read(tx)
-						txs = append(txs, tx)
-					}
-					if it.TX > 0 { // a fixed list: blocks with the same TX have identical transaction lists
-						txs = [][]byte{[]byte(fmt.Sprintf("pool-%d-a", it.TX)), []byte(fmt.Sprintf("pool-%d-b", it.TX))}
-					}
-					w.seq.next = txs
-				} else {
-					w.seq.next = nil
-				}
-				if err := w.m.VerifPublishBlock(w.ctx); err != nil {
-					res.err = fmt.Errorf("publish failed: %w", err)
+				ne, err := w.publish(it.NE, it.TX)
+				if err != nil {
+					res.err = err
 					return
 				}
-				if w.height() != before+1 {
-					res.err = fmt.Errorf("publish did not commit a block (height %d -> %d)", before, w.height())
-					return
-				}
-				ne := w.nonEmpty(before + 1)
 				res.chain = append(res.chain, ne)
 				kinds = append(kinds, ne)
 			}
 			if it.N <= 1 {
-				io := itemOut{coqItem: "IPublish " + vgen.Bool(kinds[0]), res: -1}
+				io := itemOut{coqItem: "IPublish " + vgen.Bool(kinds[0]), res: -1, left: -1}
 				mark(&io, true, "")
 				res.outs = append(res.outs, io)
 			} else {
@@ -1015,7 +1135,7 @@ func runCase(seed int64, c int, init uint64, hist []Item, rootDir string) (res *
 					for b < len(kinds) && kinds[b] == kinds[a] {
 						b++
 					}
-					io := itemOut{hitem: true, coqItem: "HPublishN " + vgen.Bool(kinds[a]) + " " + vgen.N(uint64(b-a)), res: -1}
+					io := itemOut{hitem: true, coqItem: "HPublishN " + vgen.Bool(kinds[a]) + " " + vgen.N(uint64(b-a)), res: -1, left: -1}
 					if b == len(kinds) {
 						mark(&io, true, "")
 					}
@@ -1030,7 +1150,7 @@ func runCase(seed int64, c int, init uint64, hist []Item, rootDir string) (res *
 				return
 			}
 			w.epoch++
-			io := itemOut{coqItem: "IRestart", res: -1}
+			io := itemOut{coqItem: "IRestart", res: -1, left: -1}
 			mark(&io, true, "")
 			res.outs = append(res.outs, io)
 			or.afterItem(true)
@@ -1038,7 +1158,22 @@ func runCase(seed int64, c int, init uint64, hist []Item, rootDir string) (res *
 			w.da.anyKind = true
 			w.da.script["*"] = append([]Outcome{}, it.SC...)
 			n0 := len(w.da.calls)
-			io := itemOut{res: -1}
+			io := itemOut{res: -1, left: -1}
+			var pubErr error
+			w.da.inflight = func(pubs []bool) []bool {
+				var obs []bool
+				for _, ne := range pubs {
+					b, err := w.publish(ne, 0)
+					if err != nil {
+						pubErr = err
+						return obs
+					}
+					res.chain = append(res.chain, b)
+					res.nInflight++
+					obs = append(obs, b)
+				}
+				return obs
+			}
 			start := time.Now()
 			if it.K == "h" {
 				io.coqItem = "ITick KHeader " + scriptCoq(it.SC)
@@ -1079,7 +1214,30 @@ func runCase(seed int64, c int, init uint64, hist []Item, rootDir string) (res *
 			if io.res < 3 {
 				io.elapsed = 0
 			}
+			w.da.inflight = nil
+			if pubErr != nil {
+				res.err = fmt.Errorf("in-flight %w", pubErr)
+				return
+			}
 			io.calls = append(io.calls, w.da.calls[n0:]...)
+			if hasInflight(it.SC) {
+				// the model item: every DA answer with the blocks committed while that call was in flight — as observed
+				// for the calls that were made, as requested (they never happen) for the answers not asked for
+				var ps []string
+				for i, o := range it.SC {
+					pubs := o.P
+					if i < len(io.calls) {
+						pubs = io.calls[i].pubs
+					}
+					var bs []string
+					for _, b := range pubs {
+						bs = append(bs, vgen.Bool(b))
+					}
+					ps = append(ps, "("+outcomeCoq(o)+", "+vgen.List(bs)+")")
+				}
+				io.citem = true
+				io.coqItem = "CTickP " + map[string]string{"h": "KHeader", "d": "KData"}[it.K] + " " + vgen.List(ps)
+			}
 			for _, c := range io.calls {
 				if c.kind != it.K {
 					or.fail("blob-not-faithful", fmt.Sprintf("a %s submission carried blobs of kind %q", it.K, c.kind))
@@ -1096,8 +1254,9 @@ func runCase(seed int64, c int, init uint64, hist []Item, rootDir string) (res *
 			or.afterItem(false)
 		case "loop":
 			w.da.anyKind = false
-			w.da.script["h"] = append([]Outcome{}, it.SC...)
-			w.da.script["d"] = append([]Outcome{}, it.SD...)
+			w.da.inflight = nil // the chain is frozen while both loops run (their relative order is not determined)
+			w.da.script["h"] = stripInflight(it.SC)
+			w.da.script["d"] = stripInflight(it.SD)
 			n0 := len(w.da.calls)
 			ctxH, cancelH := context.WithCancel(w.ctx)
 			ctxD, cancelD := context.WithCancel(w.ctx)
@@ -1105,8 +1264,9 @@ func runCase(seed int64, c int, init uint64, hist []Item, rootDir string) (res *
 			var wg sync.WaitGroup
 			wg.Add(2)
 			m := w.m
-			go func() { defer wg.Done(); m.HeaderSubmissionLoop(ctxH) }()
-			go func() { defer wg.Done(); m.DataSubmissionLoop(ctxD) }()
+			var doneH, doneD atomic.Bool
+			go func() { defer wg.Done(); defer doneH.Store(true); m.HeaderSubmissionLoop(ctxH) }()
+			go func() { defer wg.Done(); defer doneD.Store(true); m.DataSubmissionLoop(ctxD) }()
 			// virtual time: long enough for every scripted answer (60 s deadline answers, 2 s backoffs)
 			sleep := time.Duration(len(it.SC)+len(it.SD)+4) * 64 * time.Second
 			if w.height() > 60 {
@@ -1122,13 +1282,19 @@ func runCase(seed int64, c int, init uint64, hist []Item, rootDir string) (res *
 				}
 			}
 			time.Sleep(sleep)
+			synctest.Wait()
+			// the node's context is still alive here: what each loop left of its script, and whether it is still running
+			leftH, leftD := w.da.left("h"), w.da.left("d")
+			goneH, goneD := ctxH.Err() == nil && doneH.Load(), ctxD.Err() == nil && doneD.Load()
 			cancelH()
 			cancelD()
 			wg.Wait()
 			synctest.Wait()
 			w.da.onEmpty = map[string]func(){}
-			ioH := itemOut{coqItem: "ILoop KHeader " + scriptCoq(it.SC), res: -1}
-			ioD := itemOut{coqItem: "ILoop KData " + scriptCoq(it.SD), res: -1}
+			or.loopRetries("h", leftH, goneH, sleep)
+			or.loopRetries("d", leftD, goneD, sleep)
+			ioH := itemOut{coqItem: "ILoop KHeader " + scriptCoq(stripInflight(it.SC)), res: -1, left: leftH}
+			ioD := itemOut{coqItem: "ILoop KData " + scriptCoq(stripInflight(it.SD)), res: -1, left: leftD}
 			for _, c := range w.da.calls[n0:] {
 				if c.kind == "d" {
 					ioD.calls = append(ioD.calls, c)
@@ -1218,7 +1384,7 @@ func (io itemOut) coq() string {
 	if io.res >= 0 {
 		el = io.elapsed
 	}
-	return fmt.Sprintf("{| io_res := %s; io_el := %s; io_calls := %s; io_h := %s; io_d := %s |}", opt(int64(io.res)), opt(el), vgen.List(cs), side(io.h), side(io.d))
+	return fmt.Sprintf("{| io_res := %s; io_el := %s; io_calls := %s; io_h := %s; io_d := %s; io_left := %s |}", opt(int64(io.res)), opt(el), vgen.List(cs), side(io.h), side(io.d), opt(int64(io.left)))
 }
 
 // run a case inside a synctest bubble (virtual time)
@@ -1259,6 +1425,38 @@ func shrinkRuns(h []Item, fails func([]Item) bool) []Item {
 			}
 		}
 		h[i].N = hi
+	}
+	return h
+}
+
+// third shrinking pass: the DA answers of every script one at a time, then the in-flight commits of every answer
+func shrinkScripts(h []Item, fails func([]Item) bool) []Item {
+	h = append([]Item{}, h...)
+	with := func(i int, f func(it *Item)) []Item {
+		try := append([]Item{}, h...)
+		it := try[i]
+		it.SC = append([]Outcome{}, it.SC...)
+		it.SD = append([]Outcome{}, it.SD...)
+		f(&it)
+		try[i] = it
+		return try
+	}
+	for i := range h {
+		if h[i].T != "tick" && h[i].T != "loop" {
+			continue
+		}
+		h[i].SC = vgen.Shrink(h[i].SC, func(sc []Outcome) bool { return fails(with(i, func(it *Item) { it.SC = sc })) })
+		h[i].SD = vgen.Shrink(h[i].SD, func(sc []Outcome) bool { return fails(with(i, func(it *Item) { it.SD = sc })) })
+		for j := range h[i].SC {
+			if len(h[i].SC[j].P) == 0 {
+				continue
+			}
+			sc := append([]Outcome{}, h[i].SC...)
+			sc[j].P = vgen.Shrink(sc[j].P, func(p []bool) bool {
+				return fails(with(i, func(it *Item) { it.SC[j].P = p }))
+			})
+			h[i].SC = sc
+		}
 	}
 	return h
 }
@@ -1387,15 +1585,33 @@ func TestVerif(t *testing.T) {
 		res.Distribution["da-calls:accepted-ack-lost"] += cr.nAckLost
 		res.Distribution["tick:exhausted-30-attempts"] += cr.nExhausted
 		res.Distribution["tick:getpending-error"] += cr.nGetErr
+		res.Distribution["block:committed-while-a-da-call-is-in-flight"] += cr.nInflight
+		for _, it := range hist {
+			if it.T == "tick" && hasInflight(it.SC) {
+				res.Count("tick:with-in-flight-commits:" + it.K)
+			}
+			if it.T == "loop" {
+				for _, sc := range [][]Outcome{it.SC, it.SD} {
+					for i, o := range sc {
+						if o.O == "cancel" && i+1 < len(sc) {
+							res.Count("loop-script:cancelled-answer-then-more-answers")
+							break
+						}
+					}
+				}
+			}
+		}
 		if closing(hist) {
 			res.Count("history:closing-accepting-phase")
 		}
 		var items, outs []string
 		for _, o := range cr.outs {
-			if o.hitem {
+			if o.citem {
 				items = append(items, o.coqItem)
+			} else if o.hitem {
+				items = append(items, "CH ("+o.coqItem+")")
 			} else {
-				items = append(items, "HI ("+o.coqItem+")")
+				items = append(items, "CH (HI ("+o.coqItem+"))")
 			}
 			outs = append(outs, o.coq())
 		}
@@ -1414,6 +1630,7 @@ func TestVerif(t *testing.T) {
 			}
 			sh := vgen.Shrink(hist, stillFails)
 			sh = shrinkRuns(sh, stillFails)
+			sh = shrinkScripts(sh, stillFails)
 			res.Violations = append(res.Violations, vgen.Violation{Signature: sig, What: cr.what[vi], Case: ji,
 				Replay: Replay{Seed: j.seed, Case: j.c, Init: init, History: sh}})
 		}
@@ -1427,9 +1644,9 @@ func TestVerif(t *testing.T) {
 		}
 	}
 	res.Distinct = len(distinct)
-	res.Rule = "real aggregator Manager (NewManager, real store/signer/publishBlockInternal) commits 0..30 blocks in the main stream (30% requested empty; the first block is always the stored genesis block, empty) with initial height 1 (76%), 2 or 7; in 45% of the histories most non-empty blocks draw their transaction list from a pool of two (identical lists in several, also consecutive, blocks; 15% start with two or three such blocks pending together, optionally across a restart); histories of 3..maxLen items: publish bursts, single header/data submission iterations through the hooks, the unmodified HeaderSubmissionLoop+DataSubmissionLoop goroutines, restarts (NewManager on the same datastore); every DA call answered from a script over {accept all, accept k of n, not-included, in-mempool, too-big, error, deadline(60 s), account-sequence, accepted-but-error k (ack lost), cancel as context.Canceled or as the DA sentinel ErrContextCanceled}, 6% of scripts with a fault burst of 28..33 answers (> maxSubmitAttempts); script end = context cancellation; 70% of histories end with an accepting phase on which the liveness clause is judged (if a committed header / non-empty data is still missing after it, the oracle keeps giving the node accepting iterations of both loop bodies for as long as they make any progress, and fails when one makes none); plus the long-stretch stream (6 cases per run, 14 per thorough shard, the first one fixed): initial height 1, 2 or 7, one or two stretches of 100..600 blocks of one kind committed in a row (88% without transactions = idle chain; lengths from {100,101,128,199,200,255,256,257,300,600} or uniform 100..600; one run-length item, HPublishN in the case file, expanded inside Coq) above the watermarks, each followed by 1..3 blocks with transactions, with header / data iterations before, between and after (scripts: accept all, a DA outage of 1..3 failures, acknowledgement lost for 1..150 blobs, a prefix of 1..150 blobs accepted, then acceptance; or an outage of 31 failures = a whole submitToDA call lost with hundreds of headers pending), restarts, the unmodified loops, and a closing phase (loops with 8 accepting answers each, then one accepting iteration of each kind) on which liveness is judged; long height lists are written as runs (Check.SubmitterCheck.runs); all in synctest bubbles (virtual time; elapsed backoff time is compared); non-trivial = at least one block and one DA call; distinct = distinct (initial height, model history) terms"
+	res.Rule = "real aggregator Manager (NewManager, real store/signer/publishBlockInternal) commits 0..30 blocks in the main stream (30% requested empty; the first block is always the stored genesis block, empty) with initial height 1 (76%), 2 or 7; in 45% of the histories most non-empty blocks draw their transaction list from a pool of two (identical lists in several, also consecutive, blocks; 15% start with two or three such blocks pending together, optionally across a restart); histories of 3..maxLen items: publish bursts, single header/data submission iterations through the hooks, the unmodified HeaderSubmissionLoop+DataSubmissionLoop goroutines, restarts (NewManager on the same datastore); every DA call answered from a script over {accept all, accept k of n, not-included, in-mempool, too-big, error, deadline(60 s), account-sequence, accepted-but-error k (ack lost), cancel as context.Canceled or as the DA sentinel ErrContextCanceled}, 6% of scripts with a fault burst of 28..33 answers (> maxSubmitAttempts); 8% of scripts = 0..2 failures, 1..2 cancelled answers, 0..2 arbitrary answers, acceptance; script end = context cancellation; in 35% of the single iterations the aggregator commits blocks WHILE DA calls of the iteration are in flight (1..2 blocks, 70% with transactions, during about half of the calls: the DA double runs the real publishBlockInternal after it received the call and before it answers; model item CTickP, Model/SubmitterConc.v); after every loop item the oracle judges the unmodified loops themselves (context alive, more virtual time than all scripted answers can take: a loop that leaves DA answers unasked while a committed header / non-empty data is not on the DA layer has stopped retrying) and the number of answers each loop left is compared with the model (loop_left); 70% of histories end with an accepting phase on which the liveness clause is judged (if a committed header / non-empty data is still missing after it, the oracle keeps giving the node accepting iterations of both loop bodies for as long as they make any progress, and fails when one makes none); plus the long-stretch stream (6 cases per run, 14 per thorough shard, the first one fixed): initial height 1, 2 or 7, one or two stretches of 100..600 blocks of one kind committed in a row (88% without transactions = idle chain; lengths from {100,101,128,199,200,255,256,257,300,600} or uniform 100..600; one run-length item, HPublishN in the case file, expanded inside Coq) above the watermarks, each followed by 1..3 blocks with transactions, with header / data iterations before, between and after (scripts: accept all, a DA outage of 1..3 failures, acknowledgement lost for 1..150 blobs, a prefix of 1..150 blobs accepted, then acceptance; or an outage of 31 failures = a whole submitToDA call lost with hundreds of headers pending), restarts, the unmodified loops, and a closing phase (loops with 8 accepting answers each, then one accepting iteration of each kind) on which liveness is judged; long height lists are written as runs (Check.SubmitterCheck.runs); all in synctest bubbles (virtual time; elapsed backoff time is compared); non-trivial = at least one block and one DA call; distinct = distinct (initial height, model history) terms"
 	res.Cases = len(cases)
-	header := "From Coq Require Import NArith List Bool.\nFrom Verif Require Import Model.Submitter Check.SubmitterCheck."
+	header := "From Coq Require Import NArith List Bool.\nFrom Verif Require Import Model.Submitter Model.SubmitterConc Check.SubmitterCheck."
 	path := filepath.Join(e.Out, "cases_C06.v")
 	if err := vgen.WriteCases(path, header, defsAll, "ocase", cases, "mismatches"); err != nil {
 		t.Fatal(err)
